@@ -125,6 +125,12 @@ def debug_choice(seed):
     return hashlib.sha256(b"dbg|" + str(seed).encode()).digest()[0] % 8 == 0
 
 
+def eager_choice(seed):
+    if os.environ.get("VERIF_EAGER_TASKS") in ("0", "1"):
+        return os.environ["VERIF_EAGER_TASKS"] == "1"
+    return hashlib.sha256(b"eager|" + str(seed).encode()).digest()[0] % 8 == 1
+
+
 class DetRandom:
     """Deterministic byte/str streams keyed by (seed, label): a function of the plan only."""
 
